@@ -123,7 +123,8 @@ class TensorBoardFileTraceExporter(JsonFileTraceExporter):
         # for trace events and get rank cnt
         events_by_id = self._parse_by_rank_id('pid', self.traceview.trace_events)
         if len(events_by_id) > 1:
-            self.rank_cnt = len(events_by_id) - 1  # Remove key=-1 which is for CollBandwidth
+            # Remove key=-1 which is for CollBandwidth (if present)
+            self.rank_cnt = len(events_by_id) - (1 if -1 in events_by_id else 0)
         else:
             self.rank_cnt = len(events_by_id)  # Single AIU case
         self._update_traceview_value_by_rank("trace_events", self.rank_cnt, events_by_id)
